@@ -496,7 +496,7 @@ func propC05Preprocess(t veriflib.TB, c c05Case) {
 		b := c05Build(tr, fmt.Sprintf("t%d", ti))
 		pos := c05Position(tr.Shape)
 
-		preprocess("0", b.seed)
+		verifPreprocess("0", b.seed)
 
 		inTree := map[*models.Item]bool{}
 		b.seed.Traverse(func(n *models.Item) { inTree[n] = true })
